@@ -80,3 +80,25 @@ def canaries(rep, rng, okcases, wd, mutate, need=20, module="Trace_Refine"):
     rep.count("canaries", len(picked))
     rep.count("canaries_rejected", rejected)
     return picked, vds, rejected
+
+
+def fixed_canaries(rep, wd, items, module="Trace_Refine", extra=None):
+    """items: [(lines, opts, scripts, old, new)]: the real output of `lines` with the text `old` replaced by `new`
+    is a wrong translation that every run must reject (gating: an accepted one is a machinery failure)."""
+    res = common.run_real("w_convert", [{"src": "\n".join(it[0]), "opts": it[1]} for it in items], shards=1)
+    cases = []
+    for it, r in zip(items, res):
+        lines, opts, scripts, old, new = it
+        if "out" not in r or old not in r["out"]:
+            raise common.MachineryError("canary: expected text %r not in the output of %r: %r" % (old, lines, r))
+        r2 = {"out": r["out"].replace(old, new, 1)}
+        c = gen.program_case(len(cases) + 1, lines, opts, scripts, 200, r2, {"tag": "canary"})
+        if extra:
+            c.update(extra)
+        cases.append(c)
+    vds = common.judge(module, cases, rep, wd)
+    bad = [(c["srctext"], c["outtext"]) for c, v in zip(cases, vds) if v["ok"]]
+    rep.count("fixed_canaries", len(cases))
+    rep.count("fixed_canaries_rejected", len(cases) - len(bad))
+    if bad:
+        raise common.MachineryError("canary accepted (the specification failed to reject a wrong translation): %r" % (bad[0],))
